@@ -126,6 +126,15 @@ class SSETransport(Transport):
             # Wait for SSE connection to establish
             try:
                 await asyncio.wait_for(self._connected.wait(), timeout=self.timeout)
+
+                # The connection is only usable once the server has announced where
+                # to POST messages; a failed or closed event stream never does
+                if not self._message_url:
+                    raise RuntimeError(
+                        f"SSE connection to {self.base_url} failed: "
+                        "no message endpoint was announced"
+                    )
+
                 logger.info(f"SSE connection established to {self.base_url}")
                 return self
 
